@@ -283,6 +283,81 @@ def handleObj (st : DState) (parts : List String) : Option (DState × String) :=
         some (st, "M=" ++ fl ++ " V=" ++ (match v with | some x => showVal x | none => "-"))
       | none => some (st, "bad-op")
     | _, _, _ => some (st, "bad-op")
+  | ["hist", f, script] =>
+    -- the model has no per-instance state at all: every call is evaluated on its own
+    let fmt : Fmt := if f == "cbor" then .cbor else .json
+    let outs := (script.splitOn ";").map fun (op : String) =>
+      match op.splitOn "|" with
+      | [k, aid, tid, arg] =>
+        (match parseNat aid, parseNat tid with
+         | some ai, some ti =>
+           (match st.atlases.lookup ai with
+            | some a =>
+              if k == "M" then
+                (match parseValue st.types ti arg with
+                 | some v => (match mMarshal st a f ti v with | some b => hexOrDash b | none => "err")
+                 | none => "bad")
+              else if k == "U" then
+                (match parseHex arg with
+                 | some bs =>
+                   (match (if f == "cbor" then
+                             (let o := CborDec.decode false (Rd.ofBytes bs); if o.res.isOk then some o.toks else none)
+                           else (let o := JsonDec.decode (Rd.ofBytes bs); if o.res.isOk then some o.toks else none)) with
+                    | none => "err"
+                    | some toks =>
+                      if bindFails st.types a ti then "err" else
+                      (match unmV st.types a trLib st.it 100000 ti (zeroVal st.types 64 ti) toks with
+                       | .ok rv [] _ => showVal rv
+                       | _ => "err"))
+                 | none => "bad")
+              else
+                (match parseValue st.types ti arg with
+                 | some v =>
+                   let mo := marshalV st.types a trLib 100000 ti v
+                   if mo.fail.isSome || bindFails st.types a ti then "err" else
+                   (match unmV st.types a trLib st.it 100000 ti (zeroVal st.types 64 ti) mo.toks with
+                    | .ok rv [] _ => showVal rv
+                    | _ => "err")
+                 | none => "bad")
+            | none => "bad")
+         | _, _ => "bad")
+      | _ => "bad"
+    let _ := fmt
+    some (st, "M=" ++ ";".intercalate outs)
+  | ["frame", f, aid, tid, vals] =>
+    match parseNat aid, parseNat tid with
+    | some ai, some ti =>
+      match st.atlases.lookup ai with
+      | some a =>
+        let vs := (vals.splitOn "|").map (parseValue st.types ti)
+        if vs.any Option.isNone then some (st, "bad-op") else
+        let items := vs.filterMap id
+        let encs := items.map fun v => mMarshal st a f ti v
+        if encs.any Option.isNone then some (st, "M=marshal-failed") else
+        let sep : Bytes := if f == "json" then [10] else []
+        let stream := (encs.filterMap id).foldl (fun acc b => acc ++ b ++ sep) []
+        -- one reader, read back one item per call; the reader (with its push-back) is carried from call to call
+        let rec readAll : Nat → Rd → List String → List String × Rd
+          | 0, rd, acc => (acc.reverse, rd)
+          | n+1, rd, acc =>
+            if f == "cbor" then
+              let o := CborDec.run false (2 * rd.data.length + 2) CborDec.init rd [] 0 0
+              let r := if o.res.isOk then
+                  (match unmV st.types a trLib st.it 100000 ti (zeroVal st.types 64 ti) o.toks with
+                   | .ok rv [] _ => showVal rv | _ => "err") else "err"
+              readAll n o.rd (r :: acc)
+            else
+              let o := JsonDec.run (2 * rd.data.length + 2) JsonDec.init rd [] 0
+              let r := if o.res.isOk then
+                  (match unmV st.types a trLib st.it 100000 ti (zeroVal st.types 64 ti) o.toks with
+                   | .ok rv [] _ => showVal rv | _ => "err") else "err"
+              readAll n o.rd (r :: acc)
+        let (outs, rd) := readAll items.length (Rd.ofBytes stream) []
+        let spec := " S=" ++ "|".intercalate (items.map fun v =>
+          showVal (normV (if f == "cbor" then .cbor else .json) st.types a trLib st.it 100000 ti v))
+        some (st, "M=" ++ "|".intercalate outs ++ "/" ++ toString rd.sourceLeft ++ spec)
+      | none => some (st, "bad-op")
+    | _, _ => some (st, "bad-op")
   | ["autogen", tid, md] =>
     match parseNat tid, parseSort md with
     | some ti, some mode =>
